@@ -58,6 +58,9 @@ pub struct Inner {
     /// deterministic sync budget (C13 boundedness): fail syncs beyond this many
     pub sync_budget: Option<u64>,
     pub sync_budget_exceeded: bool,
+    /// make every close() return an error (it still counts as the one close)
+    pub fail_close: bool,
+    pub close_failures: u32,
 }
 
 #[derive(Clone, Debug)]
@@ -117,6 +120,7 @@ impl RecBackend {
     pub fn reopen_handle(&self) -> RecBackend {
         let mut g = self.lock();
         g.closes = 0;
+        g.fail_close = false;
         drop(g);
         self.clone()
     }
@@ -252,6 +256,24 @@ impl StorageBackend for RecBackend {
         }
         if g.record {
             g.log.push(LogOp::Close);
+        }
+        // close() is a backend call like any other: it takes a call index and can be made to fail
+        let idx = g.calls;
+        g.calls += 1;
+        let mut fire = g.fail_close;
+        if let Some((k, mode)) = g.fail_at {
+            fire |= match mode {
+                FaultMode::Once => idx == k,
+                FaultMode::Permanent => idx >= k,
+            };
+        }
+        if fire {
+            g.fault_fired = true;
+            g.close_failures += 1;
+            if g.record {
+                g.log.push(LogOp::Failed("close"));
+            }
+            return Err(injected());
         }
         Ok(())
     }
